@@ -228,6 +228,12 @@ func scenCCH(s *sched.Sim, cfg Config, res *Result) {
 						as = append(as, answer{d, e, clipStr(string(cr.Raw), 300)})
 					}
 				case "overlap":
+					// time may pass while the two requests are in flight: a cached plan can expire (and be
+					// evicted by the other request) between being fetched and being executed
+					if who == "cached" && ttl > 0 && ttl <= time.Second && s.T.Bool(1, 2) {
+						addTick(s, 1+s.T.Choose(2), ttl+time.Nanosecond, nil)
+						res.Probe("cch.clock-advances-while-requests-overlap")
+					}
 					rs := make([]*clientResp, 2)
 					var n atomic.Int32
 					for j := 0; j < 2; j++ {
